@@ -57,6 +57,13 @@ def parsed_tree(ctx, rng, **kw):
     from . import parsing
     qg = gen.QueryGen(rng, **kw)
     for _ in range(20):
+        if rng.random() < 0.12:
+            # history: an input refused at once (nothing but blanks, or blanks and then a character no token starts
+            # with, or an operator with nothing before it) goes through the same entry point first — what a parse left
+            # behind when it stopped before the first element must not leak into the next tree (seeded C17-G)
+            blanks = "".join(rng.choice(" \t\n\r") for _ in range(rng.randint(1, 4)))
+            parsing.impl_parse(blanks + rng.choice(["", "", "'", "\\", ")", "^2", "~", ":", "AND"]))
+            ctx.count("history: an input refused before its first element")
         q = qg.query()
         r, t = parsing.impl_parse(q)
         if t is not None:
